@@ -10,16 +10,22 @@
  * strand.
  *
  * Lines:
- *   T <self> <alloc> <nz> <p0> .. <p(nz-1)> <nep> <z0> .. <z(nep-1)> | <order of zone 0> .. <order of zone nz-1>
+ *   T <self> <alloc>[/<fin>] <nz> <p0> .. <p(nz-1)> <nep> <z0> .. <z(nep-1)>
+ *       | <order of zone 0> .. <order of zone nz-1> ; <all_parents of zone 0> .. <all_parents of zone nz-1>
  *       p: `-` root, `g` global zone, else index of the parent zone; z_k: zone of endpoint k.  Endpoint k is named
  *       e<kk> (two digits): the order of the indices is the order of the names, which is what GetMaster sorts.
  *       alloc: order in which the Endpoint objects are allocated (0 ascending, 1 descending, else seed of a
  *       shuffle) - it only influences the addresses and with them the iteration order of std::set<Endpoint::Ptr>.
+ *       fin: order in which Zone::OnAllConfigLoaded is called for the zones (the order of finalisation is not fixed):
+ *       absent = ascending index (parents first), `d` descending (children first), `p<digits>` that permutation.
  *       observation: for every zone the order in which Zone::GetEndpoints() iterates its endpoints in this process
- *       (`-` = no endpoints) - an oracle input of the model (DESIGN.md 0.3).
+ *       (`-` = no endpoints) - an oracle input of the model (DESIGN.md 0.3); after `;` for every zone what
+ *       Zone::GetAllParents() returns (nearest first, `-` = none) - compared with the model's ancestor chain.
  *   R <conn> <client> <fromzone> <objzone> <kind> <log> | s=<eps> k=<eps> p=<0|1> oz=<zone|-> ts=<0|1> old=<n> bad=<n>
  *       conn    : one character per endpoint: 0 not connected, 1 one connection, 2 two connections (an older and a
- *                 newer one); the character of the node itself is ignored
+ *                 newer one; which of the two lies first in memory alternates with the endpoint index), s / t = as 1 / 2 and
+ *                 the endpoint is `syncing` (Endpoint::SetSyncing: the node is replaying its log to it); the character of
+ *                 the node itself is ignored
  *       client  : `n` origin == nullptr, `-` origin without FromClient, `a` anonymous client (no Endpoint object),
  *                 else index of the endpoint whose connection is origin->FromClient
  *       fromzone: origin->FromZone (`-` null)
@@ -30,7 +36,10 @@
  *       observation: s = endpoints (with multiplicity) on whose newest connection the message was queued, k = endpoints
  *       whose local_log_position was advanced to the message's ts, p = the message was persisted (replay log message
  *       count grew), oz = the originZone field of the queued copies and of the message, ts = 1 iff the `ts` field equals
- *       the virtual clock, old = copies found on older connections, bad = queued texts that are not this message
+ *       the virtual clock, old = copies found on older connections, bad = queued texts that are not this message,
+ *       m = what ApiListener::GetMaster() answers on the node in this state
+ *   M <a> <b> <conn as node a sees it> <conn as node b sees it> | ma=<ep> mb=<ep>
+ *       both node identities are asked for their zone master in the same scenario
  *
  *   D <conn> <from> <originzone> <objzone> <kind> | a=<0|1> s=<eps> p=<0|1> oz=<zone|-> ts=<0|1> old=<n> bad=<n>
  *       one NETWORK step: a raw JSON-RPC message `event::VerifC11` (field originZone as given, no ts) is handed to the
@@ -106,11 +115,12 @@ static std::vector<std::string> Words(const std::string& line)
 struct Topo {
 	int self = 0;
 	unsigned alloc = 0;
+	std::string fin;           /* "" ascending, "d" descending, "p<digits>" explicit order of Zone::OnAllConfigLoaded */
 	std::vector<int> parent;   /* -1 root, -2 global */
 	std::vector<int> zoneOf;
 	bool Global(int z) const { return parent[z] == -2; }
 	std::string Body() const {
-		std::string s = std::to_string(alloc) + " " + std::to_string(parent.size());
+		std::string s = std::to_string(alloc) + (fin.empty() ? "" : "/" + fin) + " " + std::to_string(parent.size());
 		for (int p : parent) s += p == -1 ? " -" : p == -2 ? " g" : " " + std::to_string(p);
 		s += " " + std::to_string(zoneOf.size());
 		for (int z : zoneOf) s += " " + std::to_string(z);
@@ -129,6 +139,7 @@ static bool ParseTopo(const std::vector<std::string>& w, Topo& t)
 	if (w.size() < 5 || w[0] != "T") return false;
 	t.self = atoi(w[1].c_str());
 	t.alloc = (unsigned)strtoul(w[2].c_str(), nullptr, 10);
+	t.fin = w[2].find('/') == std::string::npos ? "" : w[2].substr(w[2].find('/') + 1);
 	size_t nz = (size_t)atoi(w[3].c_str());
 	if (nz == 0 || nz > 16 || w.size() < 5 + nz) return false;
 	t.parent.clear();
@@ -257,18 +268,29 @@ static void GenCases(const Topo& t0, int self, Rng& rng, size_t cap, std::vector
 	objs.push_back({ "-", "n" });
 	objs.push_back({ "-", "u" });
 
-	auto connFor = [&](uint64_t mask) {
+	/* grid over the directly related endpoints: not connected / connected, zone peers additionally connected + syncing */
+	std::vector<int> radix;
+	uint64_t nconn = 1;
+	for (int e : related) { radix.push_back(t.zoneOf[e] == lz ? 3 : 2); nconn *= (uint64_t)radix.back(); }
+	auto connFor = [&](uint64_t idx) {
 		std::string c(nep, '0');
 		for (int e = 0; e < nep; e++) c[e] = rng.below(2) ? '1' : '0';
-		for (size_t i = 0; i < related.size(); i++) c[related[i]] = (mask >> i) & 1 ? '1' : '0';
-		for (int e = 0; e < nep; e++) if (c[e] == '1' && rng.below(8) == 0) c[e] = '2';
+		for (size_t i = 0; i < related.size(); i++) {
+			int d = (int)(idx % (uint64_t)radix[i]);
+			idx /= (uint64_t)radix[i];
+			c[related[i]] = d == 0 ? '0' : d == 1 ? '1' : 's';
+		}
+		for (int e = 0; e < nep; e++) {
+			if (c[e] == '1' && t.zoneOf[e] != lz && rng.below(10) == 0) c[e] = 's';
+			if (c[e] == '1' && rng.below(8) == 0) c[e] = '2';
+			if (c[e] == 's' && rng.below(8) == 0) c[e] = 't';
+		}
 		c[self] = '.';
 		return c;
 	};
 	auto emit = [&](const std::string& conn, const std::pair<std::string, std::string>& o, const std::pair<std::string, std::string>& ob) {
 		out.push_back("R " + conn + " " + o.first + " " + o.second + " " + ob.first + " " + ob.second + " " + (rng.below(8) ? "1" : "0"));
 	};
-	uint64_t nconn = 1ULL << related.size();
 	/* the object kinds double the grid without touching the routing: the full grid takes kind z/n, kind u is sampled */
 	size_t full = (size_t)nconn * natural.size() * (size_t)(nz + 1);
 	if (full <= cap) {
@@ -301,7 +323,7 @@ static void GenCases(const Topo& t0, int self, Rng& rng, size_t cap, std::vector
 		auto emitD = [&](uint64_t m, const std::pair<std::string, std::string>& sd, int z) {
 			std::string conn = connFor(m);
 			int from = atoi(sd.first.c_str());
-			if (conn[from] == '0') conn[from] = '1';
+			if (conn[from] == '0') conn[from] = rng.below(6) ? '1' : 's';
 			out.push_back("D " + conn + " " + sd.first + " " + sd.second + " " + std::to_string(z) + " " + (rng.below(4) ? "z" : "u"));
 		};
 		size_t fullD = (size_t)nconn * senders.size() * (size_t)nz;
@@ -310,6 +332,27 @@ static void GenCases(const Topo& t0, int self, Rng& rng, size_t cap, std::vector
 		} else {
 			for (size_t i = 0; i < cap / 2; i++) emitD(rng.below(nconn), senders[rng.below(senders.size())], (int)rng.below((uint64_t)nz));
 		}
+	}
+}
+
+/* both members of every two-member zone are asked for their master: every combination of (not connected, connected,
+ * connected + syncing) on either side, the rest of the cluster seeded */
+static void GenMasterPairs(const Topo& t, Rng& rng, std::vector<std::string>& out)
+{
+	int nz = (int)t.parent.size(), nep = (int)t.zoneOf.size();
+	const char st[3] = { '0', '1', 's' };
+	for (int z = 0; z < nz; z++) {
+		std::vector<int> ms = t.Eps(z);
+		for (size_t i = 0; i < ms.size(); i++)
+			for (size_t j = i + 1; j < ms.size(); j++)
+				for (int sa = 0; sa < 3; sa++)
+					for (int sb = 0; sb < 3; sb++) {
+						std::string ca(nep, '0'), cb(nep, '0');
+						for (int e = 0; e < nep; e++) { ca[e] = "01s2"[rng.below(4)]; cb[e] = "01s2"[rng.below(4)]; }
+						ca[ms[j]] = st[sa]; cb[ms[i]] = st[sb];
+						ca[ms[i]] = '.'; cb[ms[j]] = '.';
+						out.push_back("M " + std::to_string(ms[i]) + " " + std::to_string(ms[j]) + " " + ca + " " + cb);
+					}
 	}
 }
 
@@ -327,6 +370,16 @@ static Topo MakeTopo(const std::vector<int>& forest, const std::vector<int>& cou
 	t.zoneOf = slots;
 	unsigned a = (unsigned)rng.below(4);
 	t.alloc = a < 2 ? a : 2 + (unsigned)rng.below(1000);
+	/* order of finalisation of the zones: parents first, children first, or a seeded permutation */
+	int f = (int)rng.below(3);
+	if (f == 1) t.fin = "d";
+	else if (f == 2 && t.parent.size() <= 10) {
+		std::vector<int> perm;
+		for (size_t z = 0; z < t.parent.size(); z++) perm.push_back((int)z);
+		for (size_t i = perm.size(); i > 1; i--) std::swap(perm[i - 1], perm[rng.below(i)]);
+		t.fin = "p";
+		for (int z : perm) t.fin += (char)('0' + z);
+	}
 	return t;
 }
 
@@ -364,8 +417,35 @@ static void GenAll(uint64_t seed, bool thorough, std::vector<std::vector<std::st
 					selves.resize(std::min<size_t>(selves.size(), 5));
 				}
 				for (int s : selves) GenCases(t, s, rng, cap, part, fullPairs);
+				GenMasterPairs(t, rng, part);
 				parts.push_back(part);
 			}
+		}
+	}
+	/* trees of depth 3 with every order of finalisation of the zones (all permutations up to 4 zones + the global one kept
+	 * last / first alternately; seeded permutations above): Zone::OnAllConfigLoaded must give every zone its complete
+	 * parent chain whatever the order */
+	for (int n = 3; n <= (thorough ? 5 : 4); n++) {
+		for (auto& forest : Forests(n)) {
+			bool deep = false;
+			for (int z = 0; z < n; z++) if (Depth(forest, z) == 3) deep = true;
+			if (!deep) continue;
+			std::vector<int> perm;
+			for (int z = 0; z < n; z++) perm.push_back(z);
+			int count = 0;
+			do {
+				count++;
+				if (n >= 5 && rng.below(6) != 0) continue;
+				Topo t = MakeTopo(forest, std::vector<int>(n, thorough ? 2 : 1 + (count % 2)), 1, rng);
+				t.fin = "p";
+				if (count % 2) t.fin += (char)('0' + n);
+				for (int z : perm) t.fin += (char)('0' + z);
+				if (!(count % 2)) t.fin += (char)('0' + n);
+				std::vector<std::string> part;
+				int nep = (int)t.zoneOf.size();
+				for (int e = 0; e < nep; e++) GenCases(t, e, rng, thorough ? 400 : 120, part, fullPairs);
+				parts.push_back(part);
+			} while (std::next_permutation(perm.begin(), perm.end()));
 		}
 	}
 	/* beyond the property's quantifier (the definitions are general): three endpoints in a zone, two global zones,
@@ -520,7 +600,22 @@ static void BuildNode(const std::string& work, const std::string& id)
 		zo->Register();
 		l_Zones.push_back(zo);
 	}
-	for (auto& z : l_Zones) static_pointer_cast<ConfigObject>(z)->OnAllConfigLoaded();
+	{
+		std::vector<int> fin;
+		for (int z = 0; z < nz; z++) fin.push_back(z);
+		if (l_T.fin == "d") std::reverse(fin.begin(), fin.end());
+		else if (!l_T.fin.empty()) {
+			if (l_T.fin[0] != 'p' || (int)l_T.fin.size() != nz + 1) Die("bad finalisation order " + l_T.fin);
+			std::vector<bool> seen(nz, false);
+			for (int i = 0; i < nz; i++) {
+				int z = l_T.fin[1 + i] - '0';
+				if (z < 0 || z >= nz || seen[z]) Die("bad finalisation order " + l_T.fin);
+				seen[z] = true;
+				fin[i] = z;
+			}
+		}
+		for (int z : fin) static_pointer_cast<ConfigObject>(l_Zones[z])->OnAllConfigLoaded();
+	}
 	for (auto& e : l_Eps) static_pointer_cast<ConfigObject>(e)->OnAllConfigLoaded();
 	l_Listener->SetIdentity(String(EpName(l_T.self)));
 	static_pointer_cast<ConfigObject>(l_Listener)->OnAllConfigLoaded();
@@ -531,10 +626,17 @@ static void BuildNode(const std::string& work, const std::string& id)
 
 	/* connections: an older and a newer one per endpoint (SyncSendMessage uses the newest only), one anonymous */
 	l_State.assign(nep, 0);
-	SetNow(l_Now - 1000);
-	for (int e = 0; e < nep; e++) l_Old.push_back(MkConn(EpName(e), true));
-	SetNow(l_Now - 500);
-	for (int e = 0; e < nep; e++) l_New.push_back(MkConn(EpName(e), true));
+	l_Old.assign(nep, nullptr);
+	l_New.assign(nep, nullptr);
+	for (int e = 0; e < nep; e++) {
+		/* which of the two is constructed (and with that, usually, lies in memory) first alternates: std::set<JsonRpcConnection::Ptr>
+		 * iterates by address */
+		for (int k = 0; k < 2; k++) {
+			bool older = (k == 0) == (e % 2 == 0);
+			SetNow(older ? l_Now - 1000 : l_Now - 500);
+			(older ? l_Old : l_New)[e] = MkConn(EpName(e), true);
+		}
+	}
 	l_Anon = MkConn("anonymous", false);
 	SetNow(l_Now);
 	for (int e = 0; e < nep; e++)
@@ -585,11 +687,32 @@ static std::string OrderText()
 	return s;
 }
 
+static std::string ParentsText()
+{
+	std::string s;
+	for (size_t z = 0; z < l_Zones.size(); z++) {
+		std::string o;
+		Array::Ptr ps = l_Zones[z]->GetAllParents();
+		ObjectLock olock(ps);
+		for (const String& name : ps) o += (o.empty() ? "" : ",") + std::string(name.CStr() + 1);
+		s += (z ? " " : "") + (o.empty() ? std::string("-") : o);
+	}
+	return s;
+}
+
+static int MasterIndex()
+{
+	Endpoint::Ptr m = l_Listener->GetMaster();
+	return m ? atoi(m->GetName().CStr() + 1) : -1;
+}
+
 static void SetConn(const std::string& conn)
 {
 	int nep = (int)l_T.zoneOf.size();
 	for (int e = 0; e < nep; e++) {
-		int want = e == l_T.self ? 0 : conn[e] == '2' ? 2 : conn[e] == '1' ? 1 : 0;
+		char ch = conn[e];
+		int want = e == l_T.self ? 0 : (ch == '2' || ch == 't') ? 2 : (ch == '1' || ch == 's') ? 1 : 0;
+		l_Eps[e]->SetSyncing(e != l_T.self && (ch == 's' || ch == 't'));
 		/* state 1 = newest connection only, state 2 = newest + older */
 		while (l_State[e] < want) { l_Eps[e]->AddClient(l_State[e] == 0 ? l_New[e] : l_Old[e]); l_State[e]++; }
 		while (l_State[e] > want) { l_Eps[e]->RemoveClient(l_State[e] == 2 ? l_Old[e] : l_New[e]); l_State[e]--; }
@@ -732,14 +855,15 @@ static void RunCase(const Case& c)
 		if (p == l_Now) skipped.push_back(e);
 		else if (p != 0) bad++;
 	}
+	int master = MasterIndex();
 	if (c.deliver)
-		printf("D %s %s %s %s %s | a=%d s=%s p=%d oz=%s ts=%d old=%d bad=%d\n", c.conn.c_str(), c.client.c_str(), c.fromzone.c_str(),
+		printf("D %s %s %s %s %s | a=%d s=%s p=%d oz=%s ts=%d old=%d bad=%d m=%d\n", c.conn.c_str(), c.client.c_str(), c.fromzone.c_str(),
 			c.objzone.c_str(), c.kind.c_str(), l_HandlerAccepted, ListTok(sent).c_str(), after > before ? 1 : 0,
-			oz.c_str(), tsOk ? 1 : 0, old, bad);
+			oz.c_str(), tsOk ? 1 : 0, old, bad, master);
 	else
-		printf("R %s %s %s %s %s %d | s=%s k=%s p=%d oz=%s ts=%d old=%d bad=%d\n", c.conn.c_str(), c.client.c_str(), c.fromzone.c_str(),
+		printf("R %s %s %s %s %s %d | s=%s k=%s p=%d oz=%s ts=%d old=%d bad=%d m=%d\n", c.conn.c_str(), c.client.c_str(), c.fromzone.c_str(),
 			c.objzone.c_str(), c.kind.c_str(), c.log, ListTok(sent).c_str(), ListTok(skipped).c_str(), after > before ? 1 : 0,
-			oz.c_str(), tsOk ? 1 : 0, old, bad);
+			oz.c_str(), tsOk ? 1 : 0, old, bad, master);
 }
 
 static int NodeMain(const std::string& file, const std::string& work, const std::string& id)
@@ -748,6 +872,7 @@ static int NodeMain(const std::string& file, const std::string& work, const std:
 	if (!in) Die("cannot open " + file);
 	std::string line, body;
 	bool built = false;
+	int lineSelf = 0;
 	while (std::getline(in, line)) {
 		auto w = Words(line);
 		if (w.empty()) continue;
@@ -764,11 +889,25 @@ static int NodeMain(const std::string& file, const std::string& work, const std:
 				if (t.Body() != body) Die("one topology per node process");
 				SwitchIdentity(t.self);
 			}
-			printf("%s | %s\n", l_T.Line().c_str(), OrderText().c_str());
+			lineSelf = l_T.self;
+			printf("%s | %s ; %s\n", l_T.Line().c_str(), OrderText().c_str(), ParentsText().c_str());
 		} else if (w[0] == "R") {
 			Case c;
 			if (!built || !ParseCase(w, c)) Die("bad R line: " + line);
 			RunCase(c);
+		} else if (w[0] == "M") {
+			int nep = (int)l_T.zoneOf.size();
+			if (!built || w.size() != 5 || (int)w[3].size() != nep || (int)w[4].size() != nep) Die("bad M line: " + line);
+			int a = atoi(w[1].c_str()), b = atoi(w[2].c_str());
+			if (a < 0 || a >= nep || b < 0 || b >= nep) Die("bad M line: " + line);
+			SwitchIdentity(a);
+			SetConn(w[3]);
+			int ma = MasterIndex();
+			SwitchIdentity(b);
+			SetConn(w[4]);
+			int mb = MasterIndex();
+			SwitchIdentity(lineSelf);
+			printf("M %d %d %s %s | ma=%d mb=%d\n", a, b, w[3].c_str(), w[4].c_str(), ma, mb);
 		} else if (w[0] == "D") {
 			Case c;
 			if (!built || !ParseDeliver(w, c)) Die("bad D line: " + line);
